@@ -1,129 +1,9 @@
-(* Lemmas about Model/CalTrack.v (property C18).
-   Part A (tables) is finite: it is re-established by computation over the tables regenerated from the
-   source on every run.  Parts B-D (bins, occupancy, hour of week) are unbounded: induction / arithmetic. *)
+(* Lemmas about Model/CalTrack.v (property C18), parts B-D: temperature bin features, occupancy split, hour of week.
+   Unbounded (induction / arithmetic); nothing here looks inside the regenerated tables.
+   Part A (tables, finite, re-computed on every run) is Proofs/CalTrackTableProofs.v. *)
 From Coq Require Import ZArith QArith Qminmax List Bool String Lia Lqa.
-From V Require Import Generated.CalTrackTables Model.CalTrack.
+From V Require Import Model.CalTrack.
 Import ListNotations.
-
-(* ------------------------------------------------------------------------------------------------ *)
-(* A. segment weight tables and month routing (finite, over the regenerated tables)                 *)
-(* ------------------------------------------------------------------------------------------------ *)
-
-Local Open Scope string_scope.
-
-Ltac each_month H :=
-  unfold months in H; simpl in H; repeat (destruct H as [<- | H]); [ .. | contradiction ].
-Ltac each_seg H :=
-  vm_compute in H; repeat (destruct H as [<- | H]); [ .. | contradiction ].
-Ltac by_computation := vm_compute; reflexivity.
-
-Lemma weighted_names_nodup : NoDup (map seg_name (tbl "three_month_weighted")).
-Proof. vm_compute. repeat (constructor; [ simpl; intros H; repeat (destruct H as [H | H]; [ discriminate H | ]); exact H | ]). constructor. Qed.
-
-Lemma weights_partition_weighted_l : forall m, In m months ->
-  exists own prv nxt,
-    own_segment (tbl "three_month_weighted") m = Some own /\
-    own_segment (tbl "three_month_weighted") (prev_month m) = Some prv /\
-    own_segment (tbl "three_month_weighted") (next_month m) = Some nxt /\
-    forall s, In s (tbl "three_month_weighted") ->
-      (seg_weight s m ==
-       if String.eqb (seg_name s) own then 1
-       else if String.eqb (seg_name s) prv || String.eqb (seg_name s) nxt then 1 # 2 else 0)%Q.
-Proof.
-  intros m Hm. each_month Hm;
-    (do 3 eexists; split; [ by_computation | split; [ by_computation | split; [ by_computation | ] ] ];
-     intros s Hs; each_seg Hs; vm_compute; reflexivity).
-Qed.
-
-Lemma own_segment_injective_l : forall m m', In m months -> In m' months ->
-  own_segment (tbl "three_month_weighted") m = own_segment (tbl "three_month_weighted") m' -> m = m'.
-Proof.
-  intros m m' Hm Hm'. each_month Hm; each_month Hm'; vm_compute; intros E; try reflexivity; discriminate E.
-Qed.
-
-Lemma weights_partition_one_month_l : forall m, In m months ->
-  exists own,
-    own_segment (tbl "one_month") m = Some own /\
-    forall s, In s (tbl "one_month") ->
-      (seg_weight s m == if String.eqb (seg_name s) own then 1 else 0)%Q.
-Proof.
-  intros m Hm. each_month Hm;
-    (eexists; split; [ by_computation | ]; intros s Hs; each_seg Hs; vm_compute; reflexivity).
-Qed.
-
-Lemma own_segment_one_month_injective_l : forall m m', In m months -> In m' months ->
-  own_segment (tbl "one_month") m = own_segment (tbl "one_month") m' -> m = m'.
-Proof.
-  intros m m' Hm Hm'. each_month Hm; each_month Hm'; vm_compute; intros E; try reflexivity; discriminate E.
-Qed.
-
-Lemma weights_partition_three_month_l : forall m, In m months ->
-  exists own prv nxt,
-    centre_segment (tbl "three_month") m = Some own /\
-    centre_segment (tbl "three_month") (prev_month m) = Some prv /\
-    centre_segment (tbl "three_month") (next_month m) = Some nxt /\
-    forall s, In s (tbl "three_month") ->
-      (seg_weight s m ==
-       if String.eqb (seg_name s) own || String.eqb (seg_name s) prv || String.eqb (seg_name s) nxt
-       then 1 else 0)%Q.
-Proof.
-  intros m Hm. each_month Hm;
-    (do 3 eexists; split; [ by_computation | split; [ by_computation | split; [ by_computation | ] ] ];
-     intros s Hs; each_seg Hs; vm_compute; reflexivity).
-Qed.
-
-(* the weighted table is the unweighted three-month table with the two outer months halved *)
-Lemma weighted_is_three_month_halved_l : forall m, In m months ->
-  exists own, own_segment (tbl "three_month_weighted") m = Some own /\
-    centre_segment (tbl "three_month") m = Some (substring 0 (String.length own - 9) own) /\
-    substring (String.length own - 9) 9 own = "-weighted".
-Proof.
-  intros m Hm. each_month Hm; (eexists; split; [ by_computation | split; by_computation ]).
-Qed.
-
-Lemma weights_single_l : forall m, segment_weights "single" m = Some [("all", 1%Q)].
-Proof. intros m. reflexivity. Qed.
-
-Lemma table_types_l : map fst segment_tables = ["single"; "one_month"; "three_month"; "three_month_weighted"].
-Proof. reflexivity. Qed.
-
-Lemma wrapper_fits_weighted_l : wrapper_segment_type = "three_month_weighted".
-Proof. reflexivity. Qed.
-
-Lemma predict_single_model_l : forall m, In m months ->
-  exists s, own_segment (tbl "three_month_weighted") m = Some s /\
-            prediction_terms "three_month_weighted" m = [(s, 1%Q)].
-Proof.
-  intros m Hm. each_month Hm; (eexists; split; by_computation).
-Qed.
-
-Lemma prediction_own_month_l : forall m, In m months ->
-  exists s, prediction_segment "three_month_weighted" m = Some s /\
-            own_segment (tbl "three_month_weighted") m = Some s.
-Proof.
-  intros m Hm. destruct (predict_single_model_l m Hm) as [s [Ho Hp]].
-  exists s. split; [ | exact Ho ]. unfold prediction_segment. rewrite Hp. reflexivity.
-Qed.
-
-Lemma predict_single_l : forall m, prediction_terms "single" m = [("all", 1%Q)].
-Proof. intros m. reflexivity. Qed.
-
-Section PredictValueProofs.
-  Variable V : Type.
-  Variable vzero : V.
-  Variable vadd : V -> V -> V.
-  Variable vscale : Q -> V -> V.
-  Hypothesis vscale_one : forall v, vscale 1%Q v = v.
-  Variable models : string -> V.
-
-  Lemma predict_hour_own_l : forall m, In m months ->
-    exists s, own_segment (tbl "three_month_weighted") m = Some s /\
-              predict_hour V vadd vscale models "three_month_weighted" m = Some (models s).
-  Proof.
-    intros m Hm. destruct (predict_single_model_l m Hm) as [s [Ho Hp]].
-    exists s. split; [ exact Ho | ]. unfold predict_hour. rewrite Hp. simpl. rewrite vscale_one. reflexivity.
-  Qed.
-End PredictValueProofs.
 
 (* ------------------------------------------------------------------------------------------------ *)
 (* B. temperature bin features over Q (unbounded: any temperature, any increasing endpoint list)    *)
